@@ -413,6 +413,9 @@ pub fn logicals() -> Vec<Option<Lt>> {
 }
 
 pub const NAMES: [&str; 10] = ["", ".", "a.", ".a", "a..b", "é.é", "\"", "a.b", "X", "ns.X"];
+/// Dotted extremes for the `names` family: leading / trailing / doubled dots, multi-byte
+/// characters next to a dot, a NUL.
+pub const DOTTED_NAMES: [&str; 26] = ["", ".", "..", "...", ".a", ".a.", "a.", "a..b", ".a.b", ".ns.sub.", ".a.é", "é.", ".é", "a.é.b", "\u{0}.x", "é.é", "\"", "a.b", "X", "ns.X", "ns.sub.X", ".ns.X", "..a", "a..", ".é.", "😀.😀"];
 pub const FIXED_SIZES: [usize; 6] = [0, 1, 12, 16, 17, usize::MAX];
 
 /// Decorated single nodes: every kind x every logical type (matching or not) x names x parameters.
@@ -467,8 +470,24 @@ pub fn decorated_small() -> Vec<NodeSpec> {
 	v
 }
 
+/// Named nodes of the `names` family: record, enum, fixed, decimal over fixed, under every dotted name.
+pub fn named_nodes() -> Vec<NodeSpec> {
+	let mut v = Vec::new();
+	for name in DOTTED_NAMES {
+		let name = Some(name.to_owned());
+		v.push(NodeSpec { kind: Kind::Record(vec![("f".into(), KEY_LEAF)]), name: name.clone(), logical: None });
+		v.push(NodeSpec { kind: Kind::Enum(vec!["A".into()]), name: name.clone(), logical: None });
+		v.push(NodeSpec { kind: Kind::Fixed(4), name: name.clone(), logical: None });
+		v.push(NodeSpec { kind: Kind::Fixed(16), name: name.clone(), logical: Some(Lt::Decimal(0, 1)) });
+	}
+	v
+}
+pub const NAME_CONTEXTS: [usize; 7] = [0, 1, 2, 3, 4, 5, 6];
+
 /// Put decorated nodes (whose own keys are `KEY_LEAF`) into a context. `ctx`:
-/// 0 root; 1 both branches of a union; 2 both fields of a record in namespace `ns`; 3 array items.
+/// 0 root; 1 both branches of a union; 2 both fields of a record in namespace `ns`; 3 array items;
+/// 4 both fields of a record `W` spelled in the same namespace as the first node (everything up to
+/// its last dot); 5 both fields of a record `W` in the null namespace; 6 second branch of `[int, D]`.
 pub fn in_context(ctx: usize, ds: &[NodeSpec]) -> Vec<NodeSpec> {
 	let mut v = Vec::new();
 	let first = if ctx == 0 { 0 } else { 1 };
@@ -478,6 +497,14 @@ pub fn in_context(ctx: usize, ds: &[NodeSpec]) -> Vec<NodeSpec> {
 		0 => {}
 		1 => v.push(NodeSpec::plain(Kind::Union(vec![both(0), both(1)]))),
 		2 => v.push(NodeSpec { kind: Kind::Record(vec![("f".into(), both(0)), ("g".into(), both(1))]), name: Some("ns.W".into()), logical: None }),
+		4 | 5 => {
+			let prefix = match (ctx, ds[0].name.as_deref().and_then(|n| n.rfind('.').map(|i| &n[..=i]))) {
+				(4, Some(p)) => p.to_owned(),
+				_ => String::new(),
+			};
+			v.push(NodeSpec { kind: Kind::Record(vec![("f".into(), both(0)), ("g".into(), both(1))]), name: Some(format!("{prefix}W")), logical: None })
+		}
+		6 => v.push(NodeSpec::plain(Kind::Union(vec![KEY_LEAF, keys[0]]))),
 		_ => v.push(NodeSpec::plain(Kind::Array(keys[0]))),
 	}
 	v.extend(ds.iter().cloned());
